@@ -124,6 +124,37 @@ impl Drop for LeaseRenewal {
     }
 }
 
+/// One of the `max_concurrent_compactions` slots. It is given back when the compaction
+/// it was taken for ends, however it ends: a slot kept across an early `?` return is
+/// lost for the life of the process, and after `max_concurrent_compactions` of them no
+/// cycle compacts anything any more.
+struct CompactionSlot<'a>(&'a AtomicU64);
+
+impl<'a> CompactionSlot<'a> {
+    fn take(active_compactions: &'a AtomicU64) -> Self {
+        let active = active_compactions.fetch_add(1, Ordering::Relaxed) + 1;
+        Self::publish(active);
+        Self(active_compactions)
+    }
+
+    fn publish(active: u64) {
+        gauge!(
+            "cardinalsin_compaction_active",
+            "service" => crate::telemetry::service(),
+            "run_id" => crate::telemetry::run_id(),
+            "tenant" => crate::telemetry::tenant()
+        )
+        .set(active as f64);
+    }
+}
+
+impl Drop for CompactionSlot<'_> {
+    fn drop(&mut self) {
+        let active = self.0.fetch_sub(1, Ordering::Relaxed) - 1;
+        Self::publish(active);
+    }
+}
+
 /// Compactor service
 pub struct Compactor {
     config: CompactorConfig,
@@ -598,15 +629,8 @@ impl Compactor {
                 Err(e) => return Err(e),
             };
 
-            // Track active compaction
-            let active = self.active_compactions.fetch_add(1, Ordering::Relaxed) + 1;
-            gauge!(
-                "cardinalsin_compaction_active",
-                "service" => crate::telemetry::service(),
-                "run_id" => crate::telemetry::run_id(),
-                "tenant" => crate::telemetry::tenant()
-            )
-            .set(active as f64);
+            // Track active compaction (the slot is released when it goes out of scope)
+            let _slot = CompactionSlot::take(&self.active_compactions);
 
             // Spawn lease renewal task for long-running compactions
             let renewal_handle = self.spawn_lease_renewal(lease.lease_id.clone());
@@ -673,15 +697,6 @@ impl Compactor {
             }
 
             renewal_handle.abort();
-            // Track compaction completion
-            let active = self.active_compactions.fetch_sub(1, Ordering::Relaxed) - 1;
-            gauge!(
-                "cardinalsin_compaction_active",
-                "service" => crate::telemetry::service(),
-                "run_id" => crate::telemetry::run_id(),
-                "tenant" => crate::telemetry::tenant()
-            )
-            .set(active as f64);
         }
 
         Ok(())
@@ -726,15 +741,8 @@ impl Compactor {
                 Err(e) => return Err(e),
             };
 
-            // Track active compaction
-            let active = self.active_compactions.fetch_add(1, Ordering::Relaxed) + 1;
-            gauge!(
-                "cardinalsin_compaction_active",
-                "service" => crate::telemetry::service(),
-                "run_id" => crate::telemetry::run_id(),
-                "tenant" => crate::telemetry::tenant()
-            )
-            .set(active as f64);
+            // Track active compaction (the slot is released when it goes out of scope)
+            let _slot = CompactionSlot::take(&self.active_compactions);
 
             // Spawn lease renewal task
             let renewal_handle = self.spawn_lease_renewal(lease.lease_id.clone());
@@ -801,15 +809,6 @@ impl Compactor {
             }
 
             renewal_handle.abort();
-            // Track compaction completion
-            let active = self.active_compactions.fetch_sub(1, Ordering::Relaxed) - 1;
-            gauge!(
-                "cardinalsin_compaction_active",
-                "service" => crate::telemetry::service(),
-                "run_id" => crate::telemetry::run_id(),
-                "tenant" => crate::telemetry::tenant()
-            )
-            .set(active as f64);
         }
 
         Ok(())
